@@ -85,19 +85,37 @@ impl Block {
         if index < statements_len {
             let mut removed = self.statements.remove(index);
 
-            fn filter_trivia(trivia: Trivia) -> Option<Trivia> {
-                if trivia.kind() == TriviaKind::Whitespace {
-                    None
-                } else {
-                    Some(trivia)
-                }
+            // keeps the comments with the line where each one ends: a comment ends where the
+            // trivia after it starts, which is the only way to know for a multi-line comment
+            // that references the original code
+            fn filter_trivia(
+                all_trivia: impl Iterator<Item = Trivia>,
+            ) -> Vec<(Trivia, Option<usize>)> {
+                let all_trivia: Vec<_> = all_trivia.collect();
+                let end_lines: Vec<_> = all_trivia
+                    .iter()
+                    .enumerate()
+                    .map(|(index, trivia)| {
+                        all_trivia
+                            .get(index + 1)
+                            .and_then(Trivia::get_line_number)
+                            .or_else(|| {
+                                trivia
+                                    .get_line_number()
+                                    .zip(trivia.try_read())
+                                    .map(|(line, content)| line + content.matches('\n').count())
+                            })
+                    })
+                    .collect();
+
+                all_trivia
+                    .into_iter()
+                    .zip(end_lines)
+                    .filter(|(trivia, _)| trivia.kind() != TriviaKind::Whitespace)
+                    .collect()
             }
 
-            let mut trivia: Vec<_> = removed
-                .mutate_first_token()
-                .drain_leading_trivia()
-                .filter_map(filter_trivia)
-                .collect();
+            let mut trivia = filter_trivia(removed.mutate_first_token().drain_leading_trivia());
 
             let mut drain_trailing_token = true;
 
@@ -106,19 +124,16 @@ impl Block {
                     let removed_semicolon = tokens.semicolons.remove(index);
 
                     if let Some(mut semicolon) = removed_semicolon {
-                        trivia.extend(semicolon.drain_trailing_trivia().filter_map(filter_trivia));
+                        trivia.extend(filter_trivia(semicolon.drain_trailing_trivia()));
                         drain_trailing_token = false;
                     }
                 }
             }
 
             if drain_trailing_token {
-                trivia.extend(
-                    removed
-                        .mutate_last_token()
-                        .drain_trailing_trivia()
-                        .filter_map(filter_trivia),
-                );
+                trivia.extend(filter_trivia(
+                    removed.mutate_last_token().drain_trailing_trivia(),
+                ));
             }
 
             if !trivia.is_empty() {
@@ -134,14 +149,12 @@ impl Block {
                     self.tokens.as_mut().unwrap().final_token.as_mut().unwrap()
                 };
 
-                let line_numbers: Vec<_> = trivia.iter().map(|t| t.get_line_number()).collect();
-
                 let mut previous = None;
                 let mut offset = 0;
 
-                for (index, (trivia, line_number)) in
-                    trivia.into_iter().zip(line_numbers).enumerate()
-                {
+                for (index, (trivia, end_line)) in trivia.into_iter().enumerate() {
+                    let line_number = trivia.get_line_number();
+
                     if let (Some(previous), Some(next_line)) = (previous, line_number) {
                         let gap = next_line.saturating_sub(previous);
                         if gap != 0 {
@@ -154,11 +167,11 @@ impl Block {
                         }
                     }
 
-                    token.insert_leading_trivia(index + offset, trivia.clone());
+                    token.insert_leading_trivia(index + offset, trivia);
 
-                    if line_number.is_some() {
-                        previous = line_number;
-                    }
+                    // when the line where this comment ends is unknown, no line feed is added
+                    // before the next one: too many of them would push the code down
+                    previous = end_line;
                 }
             }
         }
